@@ -84,6 +84,7 @@ type JobResult struct {
 	Witnesses    []Witness         `json:"witnesses,omitempty"`
 	OutsideBound map[string]int    `json:"outside_bound,omitempty"`
 	Merges       int               `json:"merges"`
+	TableDecisions int             `json:"table_decisions"`
 	BranchSites  map[string]int    `json:"branch_sites,omitempty"`
 	Summaries    int               `json:"summaries"`
 	SummaryPaths int               `json:"summary_paths"`
@@ -125,6 +126,8 @@ type Run struct {
 	mapPerm  bool
 	frames   []*frame
 
+	dom            map[int]byteSet
+	entangled      map[int]bool
 	merging        int
 	mergePred      *Term
 	initMode       bool
@@ -149,6 +152,11 @@ func (r *Run) unsupported(format string, args ...interface{}) {
 func (r *Run) lit(c *Term, positive bool) Lit { return r.eng.solver.LitOf(c, positive) }
 
 func (r *Run) pushPC(c *Term, positive bool) {
+	if c.Op == OpNot {
+		r.pushPC(c.A[0], !positive)
+		return
+	}
+	r.noteConjunct(c, positive)
 	r.pc = append(r.pc, r.lit(c, positive))
 	if positive {
 		r.pcT = append(r.pcT, c)
@@ -199,6 +207,32 @@ func (r *Run) Branch(c *Term) bool {
 			r.setModel(nil)
 		}
 		return d
+	}
+	if r.inSum == 0 || true {
+		if ct, cf, v, ok := r.byteDecision(c); ok {
+			ctx.pos++
+			r.res.Decisions++
+			r.res.TableDecisions++
+			var first bool
+			switch {
+			case ct && cf:
+				first = true
+				if r.model != nil {
+					first = r.evalBool(c)
+				}
+				r.pushAlt(!first)
+			case ct:
+				first = true
+			case cf:
+				first = false
+			default:
+				r.end(OutInfeasible, 0, "byte domain empty")
+			}
+			ctx.decisions = append(ctx.decisions, first)
+			r.pushPC(c, first)
+			r.patchModel(v)
+			return first
+		}
 	}
 	ctx.pos++
 	r.res.Decisions++
@@ -263,6 +297,14 @@ func (r *Run) Assume(c *Term) {
 	}
 	if r.model != nil && r.evalBool(c) {
 		r.pushPC(c, true)
+		return
+	}
+	if ct, _, v, ok := r.byteDecision(c); ok {
+		if !ct {
+			r.end(OutInfeasible, 0, "assumption infeasible (byte domain)")
+		}
+		r.pushPC(c, true)
+		r.patchModel(v)
 		return
 	}
 	res, m := r.check(c, true, true)
@@ -501,6 +543,24 @@ func (r *Run) summarise(call func() Value, name string) (Value, bool) {
 	savedDepth := r.depth
 	r.barrier = r.eng.nextObj
 	r.inSum++
+	savedDom := make(map[int]byteSet, len(r.dom))
+	for k, v := range r.dom {
+		savedDom[k] = v
+	}
+	savedEnt := make(map[int]bool, len(r.entangled))
+	for k, v := range r.entangled {
+		savedEnt[k] = v
+	}
+	restoreDom := func() {
+		r.dom = make(map[int]byteSet, len(savedDom))
+		for k, v := range savedDom {
+			r.dom[k] = v
+		}
+		r.entangled = make(map[int]bool, len(savedEnt))
+		for k, v := range savedEnt {
+			r.entangled[k] = v
+		}
+	}
 	work := [][]bool{{}}
 	var cases []sumCase
 	impure := false
@@ -508,6 +568,7 @@ func (r *Run) summarise(call func() Value, name string) (Value, bool) {
 		r.ctx = saved
 		r.pc = r.pc[:basePC]
 		r.pcT = r.pcT[:basePC]
+		restoreDom()
 		r.setModel(baseModel)
 		r.obs = r.obs[:savedObs]
 		r.frames = r.frames[:savedFrames]
@@ -519,6 +580,7 @@ func (r *Run) summarise(call func() Value, name string) (Value, bool) {
 		r.ctx = &dctx{prefix: pfx, work: &work}
 		r.pc = r.pc[:basePC]
 		r.pcT = r.pcT[:basePC]
+		restoreDom()
 		r.setModel(baseModel)
 		r.frames = r.frames[:savedFrames]
 		r.depth = savedDepth
@@ -684,6 +746,7 @@ func (e *Engine) runJob(job *Job) *JobResult {
 		Notes: map[string]string{}, BranchSites: map[string]int{},
 	}
 	e.curRes = res
+	e.solver.freshContext()
 	e.sumMemo = map[string]*sumMemo{}
 	e.solver.cache = map[string]Result{}
 	if job.TimeoutS > 0 {
@@ -708,7 +771,8 @@ func (e *Engine) runJob(job *Job) *JobResult {
 		pfx := work[len(work)-1]
 		work = work[:len(work)-1]
 		r := &Run{eng: e, job: job, res: res, ctx: &dctx{prefix: pfx, work: &work},
-			maxSteps: job.MaxSteps, unwind: job.Unwind, maxDepth: job.MaxDepth}
+			maxSteps: job.MaxSteps, unwind: job.Unwind, maxDepth: job.MaxDepth,
+			dom: map[int]byteSet{}, entangled: map[int]bool{}}
 		e.resetHeap()
 		out := r.runPath(fn)
 		res.Paths++
